@@ -87,8 +87,10 @@ class CT:
 
     def _tracer(self, frame, event, arg):
         fn = frame.f_code.co_filename
-        for t, kind in self.ctl.target_kinds:
+        for t, kind, funcs in self.ctl.target_kinds:
             if t in fn:
+                if funcs is not None and frame.f_code.co_name not in funcs:
+                    return None
                 if event == "line":
                     self.ctl.yield_point(self, kind)
                 return self._tracer
@@ -120,9 +122,14 @@ class CT:
 
 class Controller:
     def __init__(self, targets, first=0, pre=(), max_steps=20000, wall=8.0, auto_clock=False):
-        self.targets = tuple(targets)
+        # a target is a file-name fragment, or (fragment, {function names}) to gate only those functions
+        self.targets = tuple(t if isinstance(t, str) else t[0] for t in targets)
         self.target_kinds = tuple(
-            (t, "ado" if "autodetachobserver" in t else "lock" if "concurrency" in t else "op") for t in self.targets)
+            (t if isinstance(t, str) else t[0],
+             "ado" if "autodetachobserver" in (t if isinstance(t, str) else t[0])
+             else "lock" if "concurrency" in (t if isinstance(t, str) else t[0])
+             else "aio" if "asyncio/" in (t if isinstance(t, str) else t[0]) else "op",
+             None if isinstance(t, str) else frozenset(t[1])) for t in targets)
         self.kinds: list[str] = []  # kind of every yield point, parallel to `choices`
         self.first = first
         self.pre = {int(s): int(t) for s, t in pre}
@@ -365,6 +372,79 @@ class ILock:
         return self.owner == self._who()
 
 
+class CEvent:
+    """threading.Event, cooperative, with timeouts on the controlled clock (1 s = 1 tick)."""
+
+    def __init__(self, ctl):
+        self.ctl = ctl
+        self.flag = False
+
+    def set(self):
+        self.flag = True
+
+    def clear(self):
+        self.flag = False
+
+    def is_set(self):
+        return self.flag
+
+    def wait(self, timeout=None):
+        ctl = self.ctl
+        if timeout is None:
+            ctl.wait_until(lambda: self.flag)
+        else:
+            deadline = ctl.clock + max(0.0, float(timeout))
+            ctl.wait_until(lambda: self.flag or ctl.clock >= deadline, wake_at=int(-(-deadline // 1)))
+        return self.flag
+
+
+class CCondition:
+    """threading.Condition over a cooperative lock; wait(timeout) on the controlled clock."""
+
+    def __init__(self, ctl, lock=None):
+        self.ctl = ctl
+        self.lock = lock if isinstance(lock, ILock) else ILock(ctl, None)
+        self.gen = 0
+
+    def __enter__(self):
+        self.lock.acquire()
+        return self
+
+    def __exit__(self, *a):
+        self.lock.release()
+
+    def acquire(self, *a, **k):
+        return self.lock.acquire(*a, **k)
+
+    def release(self):
+        self.lock.release()
+
+    def wait(self, timeout=None):
+        ctl = self.ctl
+        gen = self.gen
+        n = self.lock.count
+        who = self.lock.owner
+        self.lock.count = 1
+        self.lock.release()
+        if timeout is None:
+            ctl.wait_until(lambda: self.gen != gen)
+        else:
+            deadline = ctl.clock + max(0.0, float(timeout))
+            ctl.wait_until(lambda: self.gen != gen or ctl.clock >= deadline, wake_at=int(-(-deadline // 1)))
+        notified = self.gen != gen
+        self.lock.acquire()
+        self.lock.count = n
+        me = ctl.me()
+        ctl.log.append(("W", me.idx if me is not None else -1, not notified))
+        return notified
+
+    def notify(self, n=1):
+        self.gen += 1
+
+    def notify_all(self):
+        self.gen += 1
+
+
 HELD: dict = {}  # thread ident -> list of ILocks held (outermost acquisitions, in order)
 
 
@@ -389,6 +469,20 @@ class _ThreadingProxy:
     @staticmethod
     def Lock():
         return lock_factory(2)
+
+    @staticmethod
+    def Condition(lock=None):
+        ctl = CURRENT_SETUP[0] or CURRENT
+        if ctl is None:
+            return threading.Condition(lock)
+        return CCondition(ctl, lock)
+
+    @staticmethod
+    def Event():
+        ctl = CURRENT_SETUP[0] or CURRENT
+        if ctl is None:
+            return threading.Event()
+        return CEvent(ctl)
 
 
 def lock_factory(depth=1):
